@@ -1491,6 +1491,8 @@ fn generate_type_impl(
                 read_write: bool,
                 context: &mut GenerateContext,
             ) -> Result<ast::Type, GenerateError> {
+                // The component type may be written with a modifier such as const
+                let ty = context.module.type_registry.remove_modifier(ty);
                 let component_type = match context.module.type_registry.extract_scalar(ty) {
                     Some(scalar) => match scalar {
                         ir::ScalarType::Float16
